@@ -44,7 +44,11 @@ RULE = ("Four generators into one executor: (1) grammar - statement templates wr
         "replacement; (3) token soup - keyword/number/punctuation/control/high-byte strings up to "
         "255 bytes as direct and numbered lines; (4) files - random bytes and mutated/truncated "
         "valid tokenised, protected, ASCII and BSAVE files through LOAD/RUN/MERGE/CHAIN/BLOAD. "
-        "plus a directed enumeration of every statement taking a name=value / device / path / macro "
+        "histories built by construction in which a stored program arms state (ON ERROR/ON KEY/ON "
+        "TIMER traps, open files, FOR/WHILE/GOSUB stacks, DEF FN, DATA pointer, CONT-able STOP) and "
+        "direct-mode statements then raise errors or use it, the handler ending by STOP/END/RESUME "
+        "forms/ERROR/editing, with real Ctrl-Break and F1 key events injected at statement boundaries "
+        "(labels hist:*); plus a directed enumeration of every statement taking a name=value / device / path / macro "
         "string against all boundary shapes of such strings (empty name or value, separator only, "
         "first, last, doubled, NUL/0xFF/quote and 254-byte halves). "
         "Configurations: syntax advanced/pcjr/tandy, nine video adapters, double, small memory, "
@@ -214,6 +218,16 @@ def call(s, mode, text):
     return harness.Outcome(kind, o, harness.parse_errors(o), exc, frame, tb=tb)
 
 
+def make_injector(s, break_at, fkey_at):
+    """Put a real Ctrl-Break / F1 key event on the input queue at the given check_events call."""
+    def inject(k):
+        if break_at and k == break_at:
+            s.put_signal(harness.signals.KEYB_DOWN, (u'', 0x46, [0x1D]))
+        if fkey_at and k == fkey_at:
+            s.put_signal(harness.signals.KEYB_DOWN, (u'\0\x3b', 0x3B, []))
+    return inject
+
+
 def bucket(o, prefix='escaped'):
     return '%s.%s@%s' % (prefix, o.exc, o.frame)
 
@@ -247,7 +261,12 @@ def run_steps(case, res, minimise=True):
                     pass
             text = step['t'].encode('latin-1', 'replace')
             mode = step.get('m', 'x')
-            o = call(s, mode, text)
+            if step.get('b') or step.get('f'):
+                s.inject = make_injector(s, step.get('b'), step.get('f'))
+            try:
+                o = call(s, mode, text)
+            finally:
+                s.inject = None
             if is_alarm(o):
                 res.inconclusive = True
                 res.label('case-wall-limit')
@@ -273,8 +292,12 @@ def run_steps(case, res, minimise=True):
                 if o.kind == 'exit':
                     res.label('step:exit')
                     break
-            res.label('kw:' + c01gen.keyword_of(step['t']))
+            if i % 4 == 0:
+                # a sample of the statement keywords (the evidence keeps the 60 commonest labels)
+                res.label('kw:' + c01gen.keyword_of(step['t']))
         res.nt(real > 0)
+        for tag in case.get('tags') or ():
+            res.label('hist:' + tag)
         closed = s.close()
         s = None
         if closed is not None and not is_alarm(closed):
@@ -663,6 +686,140 @@ def strat_expr():
     return seeded(gen_expr)
 
 
+# ---- histories: state armed by a program, used from direct mode ---------------------------------
+
+HANDLER_ACTIONS = [
+    'STOP', 'STOP', 'END', 'RESUME', 'RESUME NEXT', 'RESUME 20', 'RESUME 0', 'RESUME 9999', 'ERROR 5',
+    'ERROR ERR', 'ERROR 255', 'ON ERROR GOTO 0', 'RETURN', 'GOTO 20', 'NEXT', 'WEND', 'CONT', 'RUN', 'RUN 20',
+    'CLEAR', 'NEW', 'A=1/0:X%=40000', 'A$=CHR$(-1)', 'ON ERROR GOTO 1000:ERROR 6', 'PRINT ERL;ERR:STOP',
+    'IF ERL=65535 THEN STOP ELSE RESUME NEXT', 'IF ERL=65535 THEN RESUME NEXT ELSE END', 'INPUT Z', 'GOSUB 500',
+    'CHAIN "Q.BAS"', 'DELETE 1000', 'LIST', 'SYSTEM', 'CLOSE:RESUME NEXT', 'READ Z:RESUME', 'KEY(1) STOP:STOP',
+]
+EVENT_SUB_ACTIONS = ['RETURN', 'V=V+1:RETURN', 'STOP', 'ERROR 7', 'RETURN 20', 'END', 'A=1/0:X%=40000:RETURN']
+RAISERS = ['ERROR 5', 'ERROR 11', 'ERROR 255', 'A$=CHR$(-1)', 'PRINT 1/0:X%=40000', 'GOTO 9999', 'PRINT R(99)',
+           'FIELD 9,1 AS Z$', 'PRINT FNZ(1)', 'A$=STRING$(255,65)+STRING$(255,66)', 'OPEN "NOSUCH" FOR INPUT AS 3',
+           'READ A,A,A,A,A,A,A,A', 'A=VAL("1E99")*1E38*1E38', 'X%=1E10', 'ERROR ERR', 'COLOR 99,99,99', '?!']
+USERS = ['NEXT', 'NEXT I', 'NEXT J,I', 'WEND', 'RETURN', 'RETURN 20', 'RESUME', 'RESUME NEXT', 'RESUME 20', 'RESUME 0',
+         'CONT', 'STOP', 'END', 'GOTO 70', 'GOTO 510', 'GOSUB 500', 'RUN 60', 'RUN', 'PRINT FNA(1);FNS$("x")', 'READ A',
+         'READ B$,A', 'RESTORE', 'RESTORE 900', 'RESTORE 9999', 'PRINT#1,"x"', 'WRITE#1,A,B$', 'CLOSE', 'CLOSE 2', 'GET 2',
+         'PUT 2,1', 'LSET X$="a":RSET Y$="b"', 'PRINT X$;Y$', 'INPUT#3,B$', 'PRINT EOF(3);LOF(2);LOC(1)', 'KEY(1) STOP',
+         'KEY(1) ON', 'TIMER STOP', 'TIMER ON', 'ON ERROR GOTO 0', 'ON ERROR GOTO 1000', 'ON ERROR GOTO 9999',
+         'PRINT ERR;ERL', 'CLEAR', 'NEW', 'DELETE 1000', '1000 REM', '1000 STOP', '20 PRINT', 'RENUM', 'RENUM 100,,5', 'LIST',
+         'EDIT 10', 'SAVE "Q.BAS",A', 'MERGE "Q.BAS"', 'CHAIN MERGE "Q.BAS",20,ALL', 'CHAIN "Q.BAS",,ALL', 'LOAD "Q.BAS"',
+         'LOAD "Q.BAS",R', 'DEF FNA(X)=1', 'DEF SEG', 'ERASE R', 'DIM R(9)', 'OPTION BASE 1', 'FOR I=1 TO 2', 'WHILE 1',
+         'FOR I=1 TO 2:NEXT', 'I=5:NEXT', 'TRON', 'AUTO', 'KEY ON', 'SCREEN 1', 'WIDTH 40', 'PRINT FRE("")', 'FILES',
+         'ON KEY(1) GOSUB 2000', 'ON TIMER(1) GOSUB 2000', 'COMMON A', 'RANDOMIZE 1', 'SWAP A,B']
+
+
+def gen_history(rng, deep=False):
+    """
+    By construction: a stored program arms interpreter state (error trap, event traps, open files,
+    loop/GOSUB stacks, DEF FN, DATA pointer, a CONT-able STOP) and returns to direct mode; then
+    direct statements raise errors or use that state; the handler/event routine ends in every way
+    (STOP, END, RESUME forms, ERROR, Ctrl-Break while it runs, editing the program under it).
+    """
+    tags = []
+    prog = []
+    trap = rng.random() < 0.8
+    if trap:
+        prog.append('10 ON ERROR GOTO 1000')
+        tags.append('trap-armed')
+    if rng.random() < 0.35:
+        prog.append('12 ON KEY(1) GOSUB 2000:KEY(1) ON')
+        tags.append('key-trap')
+    if rng.random() < 0.2:
+        prog.append('14 ON TIMER(1) GOSUB 2000:TIMER ON')
+        tags.append('timer-trap')
+    if rng.random() < 0.6:
+        prog.append('16 DEF FNA(X)=X*2+Q:DEF FNS$(X$)=X$+S$:Q=3:S$="s":DIM R(5),Q$(3)')
+        tags.append('def-fn')
+    prog.append('20 PRINT "P";')
+    if rng.random() < 0.5:
+        prog.append('30 OPEN "O",1,"F.TXT":OPEN "R",2,"R.DAT",16:FIELD 2,8 AS X$,8 AS Y$:OPEN "I",3,"IN.TXT"')
+        tags.append('files-open')
+    if rng.random() < 0.5:
+        prog.append('40 READ A,B$')
+        tags.append('data-pointer')
+    stack = rng.choice(['none', 'none', 'for', 'gosub', 'while', 'for-gosub'])
+    stop_in = rng.choice(['STOP', 'STOP', 'END', rng.choice(RAISERS)])
+    if stack in ('for', 'for-gosub'):
+        prog.append('60 FOR I=1 TO 3:FOR J=1 TO 2')
+    if stack in ('gosub', 'for-gosub'):
+        prog.append('70 GOSUB 500')
+    if stack == 'while':
+        prog.append('70 W=0:WHILE W<3:W=W+1')
+    if stack != 'none':
+        tags.append('stack-' + stack)
+        if stack not in ('gosub', 'for-gosub'):
+            prog.append('80 ' + stop_in)
+        if stack == 'while':
+            prog.append('85 WEND')
+        if stack in ('for', 'for-gosub'):
+            prog.append('90 NEXT J,I')
+    end = rng.choice(['END', 'END', 'STOP', 'STOP', '', rng.choice(RAISERS), 'ON ERROR GOTO 0:END'])
+    if end:
+        prog.append('100 ' + end)
+    tags.append('ends-' + (end.split(' ')[0].split(':')[0] if end in ('END', 'STOP', '') else
+                           'error' if end in RAISERS else 'untrap') if end else 'ends-falloff')
+    prog.append('500 PRINT "S";:%s' % stop_in)
+    prog.append('510 RETURN')
+    prog.append('900 DATA 1,two,3,4')
+    act = rng.choice(HANDLER_ACTIONS)
+    second = rng.choice(['RESUME NEXT', 'RESUME NEXT', 'STOP', 'END', 'RESUME'])
+    prog.append('1000 E=ERR:L=ERL:C=C+1:%s' % act)        # no PRINT: a looping handler would scroll
+    prog.append('1010 %s' % second)
+    prog.append('2000 %s' % rng.choice(EVENT_SUB_ACTIONS))
+    prog.append('2010 RETURN')
+    first = act.split(' ')[0].split(':')[0]
+    tags.append('handler-' + (first if first in ('STOP', 'END', 'RESUME', 'ERROR') else 'other'))
+    steps = [{'m': 'x', 't': t} for t in prog]
+    steps.append({'m': 'x', 't': 'SAVE "Q.BAS",A'})
+    run = {'m': 'x', 't': 'RUN'}
+    if rng.random() < 0.15:
+        run['b'] = rng.randint(2, 12)
+        tags.append('break-in-run')
+    steps.append(run)
+    n = rng.randint(3, 16 if deep else 8)
+    nbreak = 0
+    for _ in range(n):
+        r = rng.random()
+        if r < 0.4:
+            t = rng.choice(RAISERS)
+        elif r < 0.9 or not deep:
+            t = rng.choice(USERS)
+        else:
+            t = c01gen.statement(rng.randrange(len(c01gen.STATEMENTS)), rints(rng, 16))
+        if rng.random() < 0.15:
+            t = t + ':' + rng.choice(RAISERS + USERS)
+        stp = {'m': 'x', 't': t[:250]}
+        if rng.random() < 0.2:
+            stp['b'] = rng.randint(1, 5)
+            nbreak += 1
+        if 'key-trap' in tags and rng.random() < 0.25:
+            stp['f'] = rng.randint(1, 3)
+        if 'INPUT' in t or 'AUTO' in t or 'EDIT' in t:
+            stp['k'] = rng.choice(KEYINPUT)
+        steps.append(stp)
+    if nbreak:
+        tags.append('break-in-direct')
+    if rng.random() < 0.25:
+        steps.append({'m': 'i', 't': '', 'k': rng.choice(['CONT\r', 'RESUME\r', 'ERROR 5\r', 'NEXT\r']) + 'SYSTEM\r'})
+        tags.append('interactive-leg')
+    cfg = {}
+    if deep or rng.random() < 0.15:
+        cfg, _dev = build_cfg(rints(rng, 16, 100))
+    return {'u': 'lines', 'cfg': cfg, 'files': {'IN.TXT': 'alpha,1\r\nbeta\r\n'}, 'steps': steps,
+            'tags': sorted(set(tags))}
+
+
+def strat_history():
+    return seeded(gen_history)
+
+
+def strat_history_deep():
+    return seeded(lambda rng: gen_history(rng, deep=True))
+
+
 # ---- corpus --------------------------------------------------------------------------------
 
 _CORPUS = {}
@@ -843,8 +1000,10 @@ def units(tier):
     # start-up/tear-down costs more CPU here than a few hundred cases
     q = tier == 'quick'
     return [
-        Unit('grammar', 'hyp', shards=4 if q else 16, examples={'quick': 600, 'thorough': 7000},
+        Unit('grammar', 'hyp', shards=4 if q else 16, examples={'quick': 520, 'thorough': 6000},
              strategy=strat_grammar, per_case_timeout=12.0),
+        Unit('history', 'hyp', shards=4 if q else 16, examples={'quick': 150, 'thorough': 1500},
+             strategy=strat_history if q else strat_history_deep, per_case_timeout=12.0),
         Unit('expr', 'hyp', shards=2 if q else 16, examples={'quick': 320, 'thorough': 2000},
              strategy=strat_expr, per_case_timeout=12.0),
         Unit('mutation', 'hyp', shards=2 if q else 16, examples={'quick': 400, 'thorough': 2500},
@@ -952,6 +1111,11 @@ KILLS = [
     "sound.play_ without the KeyError guard on the note table -> escaped.KeyError@sound.py:play_",
     "values.chr_ without error.range_check(0, 255) -> escaped.error@values.py:chr_ (expr unit)",
     "clock.date_ without the ValueError guard around datetime() -> escaped.ValueError@clock.py:date_",
+    "seeded: Interpreter._handle_break guard '0 <= line <= 65535' weakened to 'line < 65536' -> "
+    "escaped.KeyError@interpreter.py:_handle_break (history unit: trap armed by a finished "
+    "program, direct-mode error, STOP or Ctrl-Break in the handler)",
+    "seeded: ENVIRON accepts an empty variable name -> escaped.OSError@python3.py:setenvu (specs "
+    "and grammar units)",
     "the tree before the integrator's fixes (commit 644b472a) -> escaped.ValueError@python3.py:"
     "setenvu, escaped.KeyError@strings.py:_retrieve, escaped.AttributeError@parports.py:do_print",
 ]
